@@ -441,6 +441,49 @@ type interp struct {
 	w *world
 }
 
+// stubGroups: types.GroupChainHelper / types.ForkHelper whose available groups have the given dismiss heights.
+type stubGroups struct{ dismiss []uint64 }
+
+func (g *stubGroups) GetAvailableGroupsByMinerId(height uint64, minerId []byte) []*types.Group {
+	res := make([]*types.Group, 0)
+	for _, d := range g.dismiss {
+		res = append(res, &types.Group{Header: &types.GroupHeader{DismissHeight: d}})
+	}
+	return res
+}
+func (g *stubGroups) GetGroupById(id []byte) *types.Group          { return nil }
+func (g *stubGroups) GetBlockHeader(height uint64) *types.BlockHeader { return nil }
+
+var groupStub = &stubGroups{}
+
+// refundHeight runs the real RefundManager.getRefundHeight under the given fork flags (Proposal012 / Proposal004 active,
+// Proposal011Block == now) with the given groups, then restores the session's configuration.
+func refundHeight(p012, p004, p011now bool, now, left uint64, typ byte, dismiss []uint64, fork bool) uint64 {
+	saved := common.LocalChainConfig
+	savedH := common.GetBlockHeight()
+	defer func() { common.LocalChainConfig = saved; common.SetBlockHeight(savedH) }()
+	c := saved
+	const never = ^uint64(0)
+	c.Proposal012Block, c.Proposal004Block, c.Proposal011Block = never, never, never
+	if p012 {
+		c.Proposal012Block = 0
+	}
+	if p004 {
+		c.Proposal004Block = 0
+	}
+	if p011now {
+		c.Proposal011Block = now
+	}
+	common.LocalChainConfig = c
+	common.SetBlockHeight(now)
+	groupStub.dismiss = dismiss
+	sit := "verify"
+	if fork {
+		sit = "fork"
+	}
+	return service.RefundManagerImpl.VerifC20RefundHeight(now, left, typ, []byte{1}, sit)
+}
+
 var devConfig *common.ChainConfig
 
 // setConfig switches the fork schedule to one of the three networks' (values copied from common/version.go;
@@ -537,6 +580,15 @@ func (ip *interp) exec(line string) string {
 		}
 		op := map[string]byte{"vmstake": 0xee, "vmunstake": 0xef, "vmunstakeall": 0xeb}[t[0]]
 		return w.runStakeOp(op, bs(t[1]), bs(t[2]), amt)
+	case "rheight":
+		// rheight <p012> <p004> <p011now> <fork> <now> <left> <type> <dismiss csv|.>
+		ds := []uint64{}
+		if t[8] != "." {
+			for _, x := range strings.Split(t[8], ",") {
+				ds = append(ds, u64(x))
+			}
+		}
+		return strconv.FormatUint(refundHeight(t[1] == "1", t[2] == "1", t[3] == "1", u64(t[5]), u64(t[6]), byte(u64(t[7])), ds, t[4] == "1"), 10)
 	case "rewind":
 		return w.rewind()
 	case "endblock":
